@@ -207,7 +207,7 @@ impl Check for C08 {
     }
 
     fn cases(&self, tier: Tier) -> u64 {
-        tier.pick(30_000, 1_000_000)
+        tier.pick(90_000, 1_000_000)
     }
 
     fn max_shrink_iters(&self) -> u32 {
